@@ -17,3 +17,14 @@ bool smells_like_watford(DFS::DataAccess& access, const DFS::SectorBuffer& buf1)
 }
 }
 bool use(DFS::DataAccess& a, const DFS::SectorBuffer& b) { return smells_like_watford(a, b); }
+
+// R-C13-5: the two-sided flag consulted for HDFS only
+namespace DFS { enum class Format { HDFS, DFS, WDFS, OpusDDOS }; }
+bool single_sided_filesystem(DFS::Format fmt, const unsigned char *sec1)
+{
+  if (fmt != DFS::Format::HDFS)
+    return true;
+  if (sec1[6] & 4)
+    return false;
+  return true;
+}
